@@ -132,23 +132,27 @@ Section C04Sign.
   Variable derive_sk : bytes -> Z -> Z -> option sk.
   Variable sign : sk -> bytes -> sig.
   Variable zfix : bool.
+  Variable sfix : bool.
+  Variable nfix : bool.
   Variable cfg : amcfg.
   Variable right : bytes.
   Variable acct : bytes.
   Variable ent : bytes.
   Variable sk_of : addr -> sk.
   Hypothesis ulaws : unlock_laws kdf digest shash open_box sk branch_ok derive_sk cfg right acct ent sk_of.
+  Hypothesis Sfix : sfix = true.
+  Hypothesis Nfix : nfix = true.
 
   Theorem C04_sign_uses_address_key : forall st a h,
-    reachable kdf digest shash open_box sk sig branch_ok derive_sk sign zfix cfg st ->
+    reachable kdf digest shash open_box sk sig branch_ok derive_sk sign zfix sfix nfix cfg st ->
     known cfg a = true -> length h = 32%nat ->
     derive_sk acct (fst a) (snd a) = Some (sk_of a) /\
-    exists st' u, step kdf digest shash open_box sk sig branch_ok derive_sk sign zfix cfg st (OSign right a h)
+    exists st' u, step kdf digest shash open_box sk sig branch_ok derive_sk sign zfix sfix nfix cfg st (OSign right a h)
                   = (OutSig (sign (sk_of a) h), st', u) /\ s_unlocked st' = true.
   Proof.
     exact (fun st a h R K L =>
              conj (derive_known kdf digest shash open_box sk branch_ok derive_sk cfg right acct ent sk_of ulaws a K)
-                  (sign_right_reachable kdf digest shash open_box sk sig branch_ok derive_sk sign zfix cfg right acct ent sk_of ulaws st a h R K L)).
+                  (sign_right_reachable kdf digest shash open_box sk sig branch_ok derive_sk sign zfix sfix nfix cfg right acct ent sk_of ulaws Sfix Nfix st a h R K L)).
   Qed.
 End C04Sign.
 
